@@ -13,7 +13,7 @@ import json
 import os
 
 from checks import common
-from checks.c16 import (native_abort_under_concurrent_update, transient_empty_global_table, empty_table_case, abort_case, reproduces, private_bin, run_parallel, run_engine, gen_spec, render_steel, oracle, scan_sources, gen_coq)
+from checks.c16 import (EMPTY_TABLE_RERUNS, native_abort_under_concurrent_update, transient_empty_global_table, empty_table_case, abort_case, reproduces, private_bin, run_parallel, run_engine, gen_spec, render_steel, oracle, scan_sources, gen_coq)
 
 
 # ---- known-finding classes (decidable over the failing-input description this check produces)
@@ -219,9 +219,9 @@ def run(ck):
             if fails:
                 # one unbound answer can also be the rare empty-table race of the open exit window: a defect of
                 # definition visibility shows up again when the same program is run again
-                rep = reproduces(ck, payload, jit, None, lambda r: bool(recycled_define_failures(r)))
+                rep = reproduces(ck, payload, jit, None, lambda r: bool(recycled_define_failures(r)), *EMPTY_TABLE_RERUNS)
                 if not rep:
-                    ck.failing_input("recycled-define run (JIT %s): one transient unbound answer (%s), not seen again in 3 re-runs"
+                    ck.failing_input("recycled-define run (JIT %s): one transient unbound answer (%s), seen again in fewer than 4 of 12 re-runs"
                                      % ("on" if jit else "off", fails[0]),
                                      dict(base, kind="transient-empty-global-table", reproduced=False, units=payload), tag="void")
                     fails = []
